@@ -9,17 +9,19 @@ Import ListNotations.
 
 (* on every dispatch path - structural rules (Product reversed, Kronecker and BlockDiag factor-wise, Diagonal, ScalarMul, Identity,
    Permutation, Triangular), dense LU and Cholesky paths, the Unitary rule, the lazy CG / GMRES operators, at any nesting depth and
-   for every algorithm class incl. both branches of Auto - the returned operator is a well-formed operator of the same shape whose
+   for every algorithm class incl. both branches of Auto, and for both values of the flags gmres_amb (the pinned GMRES tie) and
+   fwd_strict (pinned: the factor-wise rules hand Cholesky/CG to every factor; repaired: to PSD factors only, Auto otherwise) -
+   the returned operator is a well-formed operator of the same shape whose
    matrix is a two-sided inverse of the matrix the input represents.  [ok] collects what the leaves must satisfy: non-zero scalars and
    diagonal entries, a genuine permutation, the LAPACK specifications where a factorisation is called, and - only where an iterative
    algorithm is selected - exactness of that solver on the operator it is applied to (properties C12 / C13). *)
 Theorem C06_inv_den : forall (R : Type) (RR : Ring R) (CR : CRing R) (FR : Field R)
-  (gmres_amb : bool) (lu_o : nat -> fm -> (nat -> nat) * fm * fm) (chol_o : nat -> fm -> fm) (tinv_o : nat -> fm -> bool -> fm) (iter_o : itag -> op -> fm),
+  (gmres_amb fwd_strict : bool) (lu_o : nat -> fm -> (nat -> nat) * fm * fm) (chol_o : nat -> fm -> fm) (tinv_o : nat -> fm -> bool -> fm) (iter_o : itag -> op -> fm),
   tinv_ok tinv_o -> forall (e : op (R:=R)) (al : alg) (a : atree) (r : iop),
-  wf e = true -> is_sq e = true -> ok lu_o chol_o iter_o al e a -> inv gmres_amb lu_o chol_o al e a = IOk r ->
+  wf e = true -> is_sq e = true -> ok fwd_strict lu_o chol_o iter_o al e a -> inv gmres_amb fwd_strict lu_o chol_o al e a = IOk r ->
   wf (to_op tinv_o iter_o r) = true /\ shape (to_op tinv_o iter_o r) = shape e /\
   inv2 (fst (shape e)) (den (to_op tinv_o iter_o r)) (den e).
-Proof. intros R RR CR FR g lu ch ti it TO e al a r. exact (inv_den g lu ch ti it TO e al a r). Qed.
+Proof. intros R RR CR FR g fw lu ch ti it TO e al a r. exact (inv_den g fw lu ch ti it TO e al a r). Qed.
 Print Assumptions C06_inv_den.
 
 (* the base rules from the oracle specifications (lazy CG / GMRES operator: from exactness of the solver): inv(U) @ inv(L) @ inv(P) for P L U = A, inv(L^H) @ inv(L) for L L^H = A, the adjoint of a unitary operator *)
@@ -33,29 +35,29 @@ Print Assumptions C06_dense_paths.
 
 (* inv(A, alg) @ b and solve(A, b, alg): A x = b, for any number of right-hand sides *)
 Theorem C06_solve_correct : forall (R : Type) (RR : Ring R) (CR : CRing R) (FR : Field R)
-  (gmres_amb : bool) (lu_o : nat -> fm -> (nat -> nat) * fm * fm) (chol_o : nat -> fm -> fm) (tinv_o : nat -> fm -> bool -> fm) (iter_o : itag -> op -> fm),
+  (gmres_amb fwd_strict : bool) (lu_o : nat -> fm -> (nat -> nat) * fm * fm) (chol_o : nat -> fm -> fm) (tinv_o : nat -> fm -> bool -> fm) (iter_o : itag -> op -> fm),
   tinv_ok tinv_o -> forall (al : alg) (e : op (R:=R)) (a : atree) (X Y : arr),
-  wf e = true -> is_sq e = true -> ok lu_o chol_o iter_o al e a -> nr X = fst (shape e) ->
-  solve gmres_amb lu_o chol_o tinv_o iter_o al e a X = Some Y ->
+  wf e = true -> is_sq e = true -> ok fwd_strict lu_o chol_o iter_o al e a -> nr X = fst (shape e) ->
+  solve gmres_amb fwd_strict lu_o chol_o tinv_o iter_o al e a X = Some Y ->
   nr Y = fst (shape e) /\ nc Y = nc X /\ feq (fst (shape e)) (nc X) (mmul (fst (shape e)) (den e) (dat Y)) (dat X).
 Proof. intros R RR CR FR. exact (@solve_correct R RR CR FR). Qed.
 Print Assumptions C06_solve_correct.
 
 (* b @ inv(A, alg) = b A^-1 *)
 Theorem C06_inv_left_product : forall (R : Type) (RR : Ring R) (CR : CRing R) (FR : Field R)
-  (gmres_amb : bool) (lu_o : nat -> fm -> (nat -> nat) * fm * fm) (chol_o : nat -> fm -> fm) (tinv_o : nat -> fm -> bool -> fm) (iter_o : itag -> op -> fm),
+  (gmres_amb fwd_strict : bool) (lu_o : nat -> fm -> (nat -> nat) * fm * fm) (chol_o : nat -> fm -> fm) (tinv_o : nat -> fm -> bool -> fm) (iter_o : itag -> op -> fm),
   tinv_ok tinv_o -> forall (al : alg) (e : op (R:=R)) (a : atree) (X Y : arr),
-  wf e = true -> is_sq e = true -> ok lu_o chol_o iter_o al e a -> nc X = fst (shape e) ->
-  lsolve gmres_amb lu_o chol_o tinv_o iter_o al e a X = Some Y ->
+  wf e = true -> is_sq e = true -> ok fwd_strict lu_o chol_o iter_o al e a -> nc X = fst (shape e) ->
+  lsolve gmres_amb fwd_strict lu_o chol_o tinv_o iter_o al e a X = Some Y ->
   nr Y = nr X /\ nc Y = fst (shape e) /\ feq (nr X) (fst (shape e)) (mmul (fst (shape e)) (dat Y) (den e)) (dat X).
 Proof. intros R RR CR FR. exact (@inv_left_product R RR CR FR). Qed.
 Print Assumptions C06_inv_left_product.
 
 (* inv(A, alg).T is the inverse of A^T *)
 Theorem C06_inv_transpose : forall (R : Type) (RR : Ring R) (CR : CRing R) (FR : Field R)
-  (gmres_amb : bool) (lu_o : nat -> fm -> (nat -> nat) * fm * fm) (chol_o : nat -> fm -> fm) (tinv_o : nat -> fm -> bool -> fm) (iter_o : itag -> op -> fm),
+  (gmres_amb fwd_strict : bool) (lu_o : nat -> fm -> (nat -> nat) * fm * fm) (chol_o : nat -> fm -> fm) (tinv_o : nat -> fm -> bool -> fm) (iter_o : itag -> op -> fm),
   tinv_ok tinv_o -> forall (al : alg) (e : op (R:=R)) (a : atree) (r : iop) (sa : bool),
-  wf e = true -> is_sq e = true -> ok lu_o chol_o iter_o al e a -> inv gmres_amb lu_o chol_o al e a = IOk r ->
+  wf e = true -> is_sq e = true -> ok fwd_strict lu_o chol_o iter_o al e a -> inv gmres_amb fwd_strict lu_o chol_o al e a = IOk r ->
   (sa = true -> symmetric (to_op tinv_o iter_o r)) ->
   let t := transpose sa (to_op tinv_o iter_o r) in
   wf t = true /\ shape t = shape e /\ inv2 (fst (shape e)) (den t) (fun i j => den e j i).
@@ -70,12 +72,12 @@ Print Assumptions C06_perm_argsort_inverse.
 
 (* the four cases of Auto on both sides of 10^6 entries; the GMRES tie of the pinned tree (flag inv_gmres_ambiguous) *)
 Theorem C06_auto_choice_table : forall (R : Type) (RR : Ring R) (CR : CRing R) (FR : Field R)
-  (gmres_amb : bool) (lu_o : nat -> fm -> (nat -> nat) * fm * fm) (chol_o : nat -> fm -> fm),
+  (gmres_amb fwd_strict : bool) (lu_o : nat -> fm -> (nat -> nat) * fm * fm) (chol_o : nat -> fm -> fm),
   auto_choice true true = AChol /\ auto_choice true false = ACG /\ auto_choice false true = ALU /\ auto_choice false false = AGMRES
   /\ (forall m n, size_small (m, n) = true <-> (N.of_nat m * N.of_nat n <= 1000000)%N)
   /\ size_small (1000, 1000) = true /\ size_small (1001, 1001) = false
-  /\ (forall (e : op (R:=R)) a, generic e a = true -> inv gmres_amb lu_o chol_o AAuto e a = base lu_o chol_o (auto_choice (apsd a) (size_small (shape e))) e a)
-  /\ (forall (e : op (R:=R)) a, tied e a = true -> gmres_amb = true -> inv gmres_amb lu_o chol_o AGMRES e a = IErr EAmbig).
+  /\ (forall (e : op (R:=R)) a, generic e a = true -> inv gmres_amb fwd_strict lu_o chol_o AAuto e a = base lu_o chol_o (auto_choice (apsd a) (size_small (shape e))) e a)
+  /\ (forall (e : op (R:=R)) a, tied e a = true -> gmres_amb = true -> inv gmres_amb fwd_strict lu_o chol_o AGMRES e a = IErr EAmbig).
 Proof. intros R RR CR FR. exact (@auto_choice_table R RR CR FR). Qed.
 Print Assumptions C06_auto_choice_table.
 
@@ -93,6 +95,13 @@ Proof. intros R RR FR. exact (@tsolve_ok R RR FR). Qed.
 Print Assumptions C06_triangular_solve_correct.
 
 (* the hypotheses are satisfiable on a non-trivial tree: (Diagonal (x) (3 * Permutation)) over the Gaussian rationals, any oracles *)
-Example C06_hypotheses_satisfiable : forall lu_o chol_o iter_o, wf ex_tree = true /\ is_sq ex_tree = true /\ ok lu_o chol_o iter_o AAuto ex_tree adef.
+Example C06_hypotheses_satisfiable : forall fwd_strict lu_o chol_o iter_o, wf ex_tree = true /\ is_sq ex_tree = true /\ ok fwd_strict lu_o chol_o iter_o AAuto ex_tree adef.
 Proof. exact ex_ok. Qed.
 Print Assumptions C06_hypotheses_satisfiable.
+
+(* witness of flag inv_psd_alg_forwarded_to_factors: the pinned factor-wise rules reject inv(PSD(Kronecker(PSD(D), D)), Cholesky()) with the
+   factor's assertion; the repaired rules return an operator (to which C06_inv_den applies) *)
+Theorem C06_forwarding_refuted : forall g lu_o chol_o,
+  inv g true lu_o chol_o AChol fw_tree fw_ann = IErr EAssert /\ (exists r, inv g false lu_o chol_o AChol fw_tree fw_ann = IOk r).
+Proof. exact fwd_pinned_refuted. Qed.
+Print Assumptions C06_forwarding_refuted.
